@@ -196,6 +196,7 @@ pub struct Violation {
     pub trace: Vec<String>,
     pub snap: Vec<String>,
     pub stderr: String,
+    pub hit_sites: Vec<String>,
 }
 
 #[derive(Default, serde::Serialize, serde::Deserialize)]
@@ -233,7 +234,7 @@ impl Stats {
             *self.exits.entry(k).or_insert(0) += v;
         }
         for v in o.violations {
-            if self.violations.len() < 50 {
+            if self.violations.len() < 400 {
                 self.violations.push(v);
             }
         }
@@ -271,7 +272,7 @@ impl Stats {
                 self.faults_reached += 1;
             }
         }
-        if !j.violations.is_empty() && self.violations.len() < 50 {
+        if !j.violations.is_empty() && self.violations.len() < 400 {
             self.violations.push(Violation {
                 scen: scen.clone(),
                 spec: ex.spec.clone(),
@@ -280,6 +281,7 @@ impl Stats {
                 trace: ex.res.trace_lines(),
                 snap: crate::scen::render(&ex.snap),
                 stderr: String::from_utf8_lossy(&ex.res.stderr).chars().take(2000).collect(),
+                hit_sites: ex.res.hit_sites.clone(),
             });
         }
         if self.samples.len() < 3 {
